@@ -65,12 +65,13 @@ class MessageQueueDrv(Drv):
 class DeadLetterQueueDrv(Drv):
     """DLQ admin path: messages dead-lettered by the queue, then reprocessed into the queue + cleanup events."""
     family = "messaging"
-    covers = ("DeadLetterQueue",)
+    covers = ("DeadLetterQueue", "MessageQueue")
     ops = ("deadletter", "reprocess")
 
     def build(self, cfg):
         self.dlq = DeadLetterQueue("dlq", capacity=3, retention_period=1.0)
-        self.q = MessageQueue("mq", delivery_latency=cfg.L, redelivery_delay=0.5, max_redeliveries=0,
+        # the queue in front of the DLQ delivers with zero latency here: this driver is about the DLQ paths
+        self.q = MessageQueue("mq", delivery_latency=0.0, redelivery_delay=0.5, max_redeliveries=0,
                               dead_letter_queue=self.dlq)
         self.c1 = _Consumer("c1", self.q, cfg.L)
         self.q.subscribe(self.c1)
